@@ -643,3 +643,84 @@ Example ex_greedy_ref_ragged_nan_tie :
   greedy_ref [[Some 1%Q; None]; [Some 1%Q]; [None; Some (1#2)%Q]] 3 2 = [(0, 0); (2, 1)] /\
   greedy_runb [[Some 1%Q; None]; [Some 1%Q]; [None; Some (1#2)%Q]] 3 2 [] [] [(1, 0); (2, 1)] = true.
 Proof. vm_compute. auto. Qed.
+
+(* --- round 7: the brute-force Hungarian reference for ALL matrices (C09/HungarianAll.v) --- *)
+From SV Require Import C09.HungarianAll.
+
+(* `hungarian_contract false` is the contract the harness checks scipy's answers against
+   (check_matchers: one-to-one, in range, no NaN/inf-cost pair, size min(n,m), total score
+   not beaten by ANY such assignment; failure iff none exists) and `hungarian_ref` is the
+   executable brute-force reference it compares with.  Until round 6 "the reference meets
+   the contract" was sampled.  Now, for EVERY matrix (any shape, ragged rows, NaN cells)
+   and every n, m: the reference's answer satisfies the contract — optimality is over ALL
+   assignments `q` with `matching n m q`, `finite_on M q`, not only the enumerated ones. *)
+Theorem c09_hungarian_reference_meets_contract_all_matrices : forall M n m,
+  hungarian_contract false M n m (hungarian_ref M n m).
+Proof. exact hungarian_ref_contract. Qed.
+Print Assumptions c09_hungarian_reference_meets_contract_all_matrices.
+
+(* spelled out: an answer is one of the enumerated assignments, one-to-one and inside the
+   matrix, uses no NaN cell, has size min(n,m) and the largest total score (= least cost) *)
+Theorem c09_hungarian_reference_answer_optimal_all_matrices : forall M n m p,
+  hungarian_ref M n m = APairs p ->
+  In p (full_matchings n m) /\ matching n m p /\ finite_on M p /\ length p = Nat.min n m /\
+  forall q, matching n m q -> finite_on M q -> length q = length p -> (tot M q <= tot M p)%Q.
+Proof. exact hungarian_ref_answer. Qed.
+Print Assumptions c09_hungarian_reference_answer_optimal_all_matrices.
+
+(* the reference fails EXACTLY when no all-finite assignment of size min(n,m) exists
+   (scipy: "cost matrix is infeasible"); it answers whenever the block has no NaN *)
+Theorem c09_hungarian_reference_fails_iff_infeasible : forall M n m,
+  hungarian_ref M n m = AFail <->
+  ~ exists q, matching n m q /\ finite_on M q /\ length q = Nat.min n m.
+Proof. exact hungarian_ref_fails_iff. Qed.
+Print Assumptions c09_hungarian_reference_fails_iff_infeasible.
+
+Theorem c09_hungarian_reference_defined_on_finite : forall M n m,
+  (forall r c, r < n -> c < m -> cell M r c <> None) -> hungarian_ref M n m <> AFail.
+Proof. exact hungarian_ref_defined. Qed.
+Print Assumptions c09_hungarian_reference_defined_on_finite.
+
+(* whenever it answers, the answer also meets the contract of the REPAIRED
+   hungarian_matching (fix_iii = true: largest all-finite assignment, optimal) *)
+Theorem c09_hungarian_reference_answer_meets_repaired_contract : forall M n m p,
+  hungarian_ref M n m = APairs p -> hungarian_contract true M n m (APairs p).
+Proof. exact hungarian_ref_contract_repaired. Qed.
+Print Assumptions c09_hungarian_reference_answer_meets_repaired_contract.
+
+(* the booleans the harness evaluates on an answer *)
+Theorem c09_hungarian_reference_answer_valid_all_matrices : forall M n m p,
+  hungarian_ref M n m = APairs p ->
+  matching n m p /\ (p = [] -> n = 0 \/ m = 0) /\ validb n m p = true /\ matchb n m p = true.
+Proof. exact hungarian_ref_valid. Qed.
+Print Assumptions c09_hungarian_reference_answer_valid_all_matrices.
+
+(* The answer contract `valid_ans` (premise of c09x_repaired_full_any_matcher) at a call
+   answered by the Hungarian reference: every configuration, state, detections, matrix.
+   (The hypothesis is needed: on an infeasible matrix the reference — like scipy — fails,
+   and `valid_ans` demands an answer; see c09_hungarian_reference_fails_iff_infeasible.) *)
+Theorem c09x_hungarian_reference_meets_valid_ans : forall X st ds M o p,
+  hungarian_ref M (length ds) (length (cur st)) = APairs p ->
+  valid_ans X (st, (ds, M, APairs p), o) /\ valid_ansb X st (ds, M, APairs p) = true.
+Proof. exact hungarian_ref_answer_valid_ans. Qed.
+Print Assumptions c09x_hungarian_reference_meets_valid_ans.
+
+(* non-vacuity / shape: a ragged 3 x 2 matrix with NaN cells and a tie (answer, and the
+   theorem instantiated on a competitor outside the enumeration order); a 2 x 3 matrix;
+   an infeasible 2 x 2 matrix (NaN column) where the reference fails; an empty matrix *)
+Example ex_hungarian_ref_ragged_nan_tie :
+  let M := [[Some 1%Q; None]; [Some 1%Q]; [None; Some (1#2)%Q]] in
+  hungarian_ref M 3 2 = APairs [(0, 0); (2, 1)] /\
+  Qle (tot M [(2, 1); (1, 0)]) (tot M [(0, 0); (2, 1)]) /\
+  hungarian_ref [[Some 1%Q; None; Some 3%Q]; [Some 2%Q; Some (1#2)%Q]] 2 3 = APairs [(0, 2); (1, 0)] /\
+  hungarian_ref [[None; Some 1%Q]; [None; Some 1%Q]] 2 2 = AFail /\
+  hungarian_ref [] 0 3 = APairs [].
+Proof.
+  intros M. split; [vm_compute; reflexivity|]. split.
+  - assert (E : hungarian_ref M 3 2 = APairs [(0, 0); (2, 1)]) by (vm_compute; reflexivity).
+    destruct (c09_hungarian_reference_answer_optimal_all_matrices M 3 2 _ E) as (_ & _ & _ & _ & Opt).
+    apply Opt; [| |reflexivity].
+    + apply matchb_matching. vm_compute. reflexivity.
+    + intros r c [H|[H|[]]]; inversion H; subst; vm_compute; discriminate.
+  - repeat split; vm_compute; reflexivity.
+Qed.
